@@ -103,11 +103,41 @@ CLAIMED["C05"] = (c[0], c[1] + "; W-crash histories judged for redelivery after 
 c = CLAIMED["C07"]
 CLAIMED["C07"] = (c[0], c[1] + "; listing after crash recovery", c[2] + " Restart part: payload bytes and header maps of every message listed after a crash recovery (W-crash) equal what was enqueued.", c[3])
 
+# ---- extensions of the second build session (DESIGN.md 10.7) ----
+def ext(pid, tech="", text="", note=None):
+    c = CLAIMED[pid]
+    CLAIMED[pid] = (c[0], c[1] + tech, c[2] + text, c[3] if note is None else note)
+
+CONC2 = " W-conc also runs on the memory backend (3 in 10 programs; every statement of the exported MemoryStore methods is a scheduling point, a caller waiting for the store mutex is recognised as blocked) and, on SQLite, with one handle per caller on the one database file (3 in 10 programs: a second process such as hookaido mcp; scheduling points before every SQL-running statement of every SQLiteStore method, never inside a write transaction)."
+ext("C01", "; process death inside the very first start and inside batches of hundreds of messages; Pull API duplicate requests in flight at once with process death between their statements",
+    " W-crash also places faults inside the very first start (file creation, schema migration: the next start must succeed) and inside batches of 129-300 messages. syscrash: the same single-lease ack/nack is sent two or three times at once (a consumer retrying while its first attempt is in flight), every statement of the Pull API handlers and both sides of the store calls are scheduling points, the process dies at a drawn decision, at the instant one request has been answered while another is in flight, or at a disk operation: a 204 written before the death is certain after restart." + CONC2.replace(" W-conc also runs on the memory backend (3 in 10 programs; every statement of the exported MemoryStore methods is a scheduling point, a caller waiting for the store mutex is recognised as blocked) and, on SQLite,", " W-conc also runs"))
+ext("C03", "; dispatcher workers: the lease asked for covers a whole sequential micro-batch",
+    CONC2 + " Dispatcher part: single-target routes with concurrency 2-6 (micro-batches of up to 4 leases per worker), targets that hang to the deadline or answer just inside it, worker cycles sequential and interleaved: every message a worker's dequeue returns was offerable in the model, and unless the simulator stalled the worker every delivery starts and is settled before the worker's own lease runs out.",
+    "store level: sequential histories on both backends, concurrent callers on both backends and across two handles; pull handlers and dispatcher workers in their own worlds; trusted: sim/model.go, the store's sequential behaviour as judged by W-store")
+ext("C04", "", CONC2)
+ext("C05", "", CONC2 + " The store generator mixes in groups of steps that belong together (several leases outstanding with different expiries and polls between, at and after them; a lease that is extended and polled around both expiries).")
+ext("C12", "", CONC2)
+ext("C06", "; store faults at drawn points of the delivery cycle",
+    " Store faults: single calls of the dispatcher (batch and single settlements, attempt records) are refused by the store at drawn points; every recorded delivery outcome still reaches the store through a settlement call unless the call of last resort was itself refused.",
+    "jitter comes from the global math/rand source re-seeded per program (go:debug randseednop=0); Dequeue errors are not injected (the dispatcher answers them with a real 200 ms sleep); trusted: sim/sys_dispatch.go reference table")
+ext("C07", "", " Requests are built from wire text and also sent with Transfer-Encoding: chunked (no declared length), with size limits drawn.")
+ext("C08", "; failed reloads with unloadable secrets (fail closed)",
+    " Basic routes with two users are probed with one user's name and the other's password. Fail-closed under secret-loading faults: a reload whose inline secret, named secret version or route pull token cannot be loaded must be refused and the probe requests and API authorisation behave exactly as before.")
+ext("C09", "; reload alongside concurrent duplicates",
+    " Two in three programs end with two or three requests served at once (usually the same signed request), every statement of ServeHTTP, HMACAuth.Verify and the nonce cache being a scheduling point; in a third of those a reload (of a file that differs by a comment) runs as one more task, with points in reloadConfig and loadAuth, and the captured requests are sent again afterwards.")
+ext("C10", "", " Named matchers (@name blocks attached singly, in pairs and in threes, with and without a match block of the route's own, lists of three entries) are part of the generated configurations; requests aim at every position of host, method and remote_ip lists.")
+ext("C11", "", " Configurations without a global allowlist are generated too: a configuration (at start or by reload) that would leave a pull route with an empty effective allowlist must be refused.")
+ext("C15", "; batches under crash and disk faults at store level",
+    " After a 2xx every item of the batch is in the queue exactly once (checked on the listing, independently of the queue model); request bodies are also sent chunked. Crash part (W-crash): batches of 1-4 and of 129-300 messages with a kill, power loss or disk error at a drawn disk operation inside the batch: afterwards the batch is there completely or not at all.",
+    "endpoint-scoped (managed) publish and publish_policy global switches are not generated; the crash part drives EnqueueBatch directly (the call a publish makes), not the HTTP handler; input sampling through the real wiring")
+ext("C18", "", " Failed reloads include an unloadable named secret version and an unloadable route pull token.")
+ext("C20", "", " Eight names that differ from a tool's name by surrounding white space only are called with the arguments of the tool they resemble: each is either refused as unknown without effect, or held to that tool's gate and audit duties.")
+
 NA = {
  "C19": "config Parse/Format/Compile are pure functions of the text: no schedule, clock, I/O or fault for a simulation to decide (DESIGN.md §5)",
 }
 hooks = subprocess.run(["git", "-C", "/repo", "log", "--format=%h %s"], capture_output=True, text=True).stdout.splitlines()
-hook_commits = [l.split()[0] for l in hooks if l.split(" ", 1)[1].startswith("verif hooks")]
+hook_commits = [l.split()[0] for l in hooks if l.split(" ", 1)[1].startswith("verif")]
 m = {
  "version": 1,
  "setup_cmd": "cd /verif && ./check build",
